@@ -42,6 +42,7 @@ type lcCfg struct {
 	PushTargets []string `json:"pushTargets"` // relay push targets (one gated stub RTMP server each)
 	ParamLen    int      `json:"paramLen"`    // length of the URL parameters of RTMP publishers
 	TsSubs      []string `json:"tsSubs"`      // HTTP-TS subscribers
+	RtspWire    bool     `json:"rtspWire"`    // RTSP publishers are set up completely (SETUP interleaved, RECORD)
 	HttpNotify  bool     `json:"httpNotify"`  // notifications through lal's own HttpNotify worker to a stub web hook
 	WirePubs    []string `json:"wirePubs"`    // RTMP publishers on real loopback connections served by the server's own routine
 }
@@ -130,7 +131,9 @@ type lcSession struct {
 	done   chan struct{}
 	push   *rtmp.PushSession   // wire publisher: the client end
 	wsess  *rtmp.ServerSession // wire publisher: the session the server's routine created
+	cseq   int                 // rtsp publisher: last CSeq used on the command connection
 	sent   uint64              // wire publisher: bytes written by the client after the publish
+	keep   *[]byte             // rtsp: everything the peer has written so far (when set)
 	wbase  uint64              // wire publisher: bytes the server session had read when the publish was accepted
 }
 
@@ -364,6 +367,9 @@ func runLifecycleScenario(sc *lcScenario, emitEv func(M)) {
 		if strings.HasPrefix(id, base.UkPreRtmpPullSession) || strings.HasPrefix(id, base.UkPreRtspPullSession) {
 			return "pull"
 		}
+		if strings.HasPrefix(id, base.UkPreRtspSubSession) {
+			return "player" // the RTSP player of a Describe step
+		}
 		return "?" + id
 	}
 	nh := &lcNotify{marker: make(chan string, 16), name: nameOf}
@@ -567,6 +573,11 @@ func runLifecycleScenario(sc *lcScenario, emitEv func(M)) {
 				})
 				if !accepted {
 					err = base.ErrDupInStream
+				} else if sc.Cfg.RtspWire {
+					u := "rtsp://127.0.0.1/live/" + stream
+					s.cseq = 1
+					lcRtspRequest(s, "SETUP "+u+"/streamid=0 RTSP/1.0\r\nTransport: RTP/AVP/TCP;unicast;interleaved=0-1;mode=record\r\n")
+					lcRtspRequest(s, "RECORD "+u+" RTSP/1.0\r\nRange: npt=0.000-\r\n")
 				}
 			}
 			ret := "ok"
@@ -735,6 +746,14 @@ func runLifecycleScenario(sc *lcScenario, emitEv func(M)) {
 					}
 				}
 			}
+			if skind == "rtspPub" && sc.Cfg.RtspWire && s.done != nil {
+				// media-side bytes on the publisher's own connection: an RTCP sender report on the interleaved
+				// RTCP channel, then an OPTIONS as a barrier (the command loop handles its input in order)
+				sr := make([]byte, 28)
+				copy(sr, []byte{0x80, 200, 0, 6, 0, 0, 0, 9})
+				s.conn.Feed(append([]byte{'$', 1, 0, 28}, sr...))
+				lcRtspRequest(s, "OPTIONS rtsp://127.0.0.1/live/"+stream+" RTSP/1.0\r\n")
+			}
 			n, h := drain()
 			fwd := false
 			for _, o := range sess {
@@ -751,6 +770,37 @@ func runLifecycleScenario(sc *lcScenario, emitEv func(M)) {
 			ev := M{"ev": "Probe", "x": x, "obs": M{"ret": ret, "notif": n, "hook": h, "attempts": origin.count(), "fwd": fwd}}
 			emitEv(ev)
 			continue
+		case "KeepAlive":
+			ret := "err"
+			if s := sess[x]; s != nil && s.kind == "rtspPub" {
+				if lcRtspRequest(s, "OPTIONS rtsp://127.0.0.1/live/"+stream+" RTSP/1.0\r\n") {
+					ret = "ok"
+				}
+			}
+			emit("KeepAlive", x, ret)
+		case "Describe":
+			// an RTSP player on its own connection, served by the real per-connection routine: DESCRIBE, then
+			// OPTIONS as a barrier - when that is answered the DESCRIBE has been answered or parked
+			pc := &lcSession{kind: "rtspPlayer", conn: NewMemConn("player")}
+			psrv := rtsp.NewServer("127.0.0.1:0", &lcRtspObserver{sm: sm, onPub: func(p *rtsp.PubSession) {}}, rtsp.ServerAuthConfig{})
+			pc.done = make(chan struct{})
+			go func() { psrv.VerifHandleTcpConnect(pc.conn); close(pc.done) }()
+			u := "rtsp://127.0.0.1/live/" + stream
+			pc.conn.Feed([]byte("DESCRIBE " + u + " RTSP/1.0\r\nCSeq: 1\r\nAccept: application/sdp\r\n\r\n"))
+			pc.cseq = 1
+			var all []byte
+			pc.keep = &all
+			lcRtspRequest(pc, "OPTIONS "+u+" RTSP/1.0\r\n")
+			ret := "wait"
+			if bytes.Contains(all, []byte("application/sdp")) {
+				ret = "sdp"
+			}
+			pc.conn.Close()
+			select {
+			case <-pc.done:
+			case <-time.After(3 * time.Second):
+			}
+			emit("Describe", "", ret)
 		case "Sweep":
 			// a tick whose count is a multiple of base.LogicCheckSessionAliveIntervalSec (120): the idle check runs
 			sweeps++
@@ -1272,4 +1322,22 @@ func newLcWebHook(nh *lcNotify, stream string) *lcWebHook {
 	w := &lcWebHook{Addr: ln.Addr().String(), ln: ln, srv: &http.Server{Handler: mux}}
 	go w.srv.Serve(ln)
 	return w
+}
+
+// lcRtspRequest sends one request on the command connection of an RTSP session and waits for the response
+// with its CSeq.
+func lcRtspRequest(s *lcSession, reqLine string) bool {
+	s.cseq++
+	mark := []byte(fmt.Sprintf("CSeq: %d\r\n", s.cseq))
+	s.conn.Feed([]byte(reqLine + string(mark) + "\r\n"))
+	var got []byte
+	ok := waitFor(3*time.Second, func() bool {
+		b, _ := s.conn.Drain()
+		got = append(got, b...)
+		if s.keep != nil {
+			*s.keep = append(*s.keep, b...)
+		}
+		return bytes.Contains(got, mark)
+	})
+	return ok
 }
